@@ -50,9 +50,11 @@ def run(tier, replay):
         r = recs[ln]
         which = "before" if r["rec"] == r["before"] else "after" if r["rec"] == r["after"] else "neither"
         diff = [f for f in r["rec"] if r["rec"][f] != r["before"][f] and r["rec"][f] != r["after"][f]]
+        as_after = [f for f in r["rec"] if r["rec"][f] == r["after"][f] and r["rec"][f] != r["before"][f]]
+        as_before = [f for f in r["rec"] if r["rec"][f] == r["before"][f] and r["rec"][f] != r["after"][f]]
         R.violation(f"{t[3]} kind={r['kind']} pt={r['point']} state={which} fields={','.join(diff)} verify={len(r['verify'])}",
                     f"kind={r['kind']} crash at point {r['k']} ({r['point']}): recovered state is {which} the before/after state "
-                    f"(fields neither: {diff}), verify() reports {r['verify'][:3]}, next identifier {r['nextc']} vs committed "
+                    f"(fields as after: {as_after}, as before: {as_before}, as neither: {diff}), verify() reports {r['verify'][:3]}, next identifier {r['nextc']} vs committed "
                     f"maximum {r['cmax']}", [lines[ln]])
     classes = {}
     for r in recs:
